@@ -524,6 +524,7 @@ pub fn case_to(c: &Case) -> Value {
             "rejected_inserts_after_each_key": m.rejects,
             "one_run_of_rejected_inserts_at_half_way": m.reject_run,
             "builder_handed_back_and_forth_between_threads": m.threads,
+            "prologue": m.prologue,
         }}),
         Case::Delta(d) => json!({"address_delta_boundary": {"target_delta": d.target, "seed": d.seed.to_string()}}),
         Case::Epoch(e) => json!({"many_builders_in_a_row": {"items": items_to(&e.items), "valued": e.valued, "empty_builders_between_the_two_builds": e.between}}),
@@ -561,6 +562,7 @@ pub fn case_from(v: &Value) -> R<Case> {
             rejects: x.get("rejected_inserts_after_each_key").and_then(|b| b.as_u64()).unwrap_or(0) as u32,
             reject_run: x.get("one_run_of_rejected_inserts_at_half_way").and_then(|b| b.as_u64()).unwrap_or(0),
             threads: x.get("builder_handed_back_and_forth_between_threads").and_then(|b| b.as_u64()).unwrap_or(1) as u8,
+            prologue: x.get("prologue").and_then(|b| b.as_u64()).unwrap_or(0) as u8,
         }));
     }
     if let Some(x) = v.get("many_builders_in_a_row") {
